@@ -298,6 +298,16 @@ int main(void)
 			       (int) N_ELEMENTS(cn->btt_link), (int) N_ELEMENTS(cp->data.lop.link),
 			       (int) N_ELEMENTS(cn->_pages), (int) N_ELEMENTS(cn->_magazines), (int) N_ELEMENTS(vt->raw_page));
 		}
+		else if (H_IS(0, "drcs") && h_ntok == 4) {
+			/* oracle only: converted DRCS character `ptu` of a cached (G)DRCS page and the invalid mask */
+			long long c;
+			if (!h_int(h_tok[1], &a) || !h_int(h_tok[2], &b) || !h_int(h_tok[3], &c) || c < 0 || c >= 48) printf("rej parse\n");
+			else {
+				cache_page *cp = find_page((int) a, (int) b);
+				if (!cp || (cp->function != PAGE_FUNCTION_DRCS && cp->function != PAGE_FUNCTION_GDRCS)) printf("ok none\n");
+				else { printf("ok invalid=%llx chars=", (unsigned long long) cp->data.drcs.invalid); h_puthex(cp->data.drcs.chars[c], 60); printf("\n"); }
+			}
+		}
 		else if (H_IS(0, "refs") && h_ntok == 1) printf("ok %d\n", leaked_refs(0));
 		else if (H_IS(0, "fetch") && h_ntok == 3) {
 			/* oracle only: Level 1.5 formatted text, one unicode per cell */
